@@ -424,6 +424,37 @@ def apply_fn_rules(fn, d, log):
     body = strip_attrs_and_docs(body, log)
     sig = drop_auto_traits(sig, log)
     body = drop_auto_traits(body, log)
+    # T9 (at the original site): a closure that is verified separately is replaced by an opaque value
+    for cut in d.get("cuts", []):
+        toks = [t for t in lex(body) if t[0] in CODE]
+        want = lex_words(cut["open"])
+        hit = None
+        for k in range(len(toks) - len(want)):
+            if [body[t[1]:t[2]] for t in toks[k:k + len(want)]] == want:
+                if hit is not None:
+                    raise ExtractError("cut opener %r not unique in %s" % (cut["open"], d["name"]))
+                hit = k
+        if hit is None:
+            raise ExtractError("cut opener %r lost in %s" % (cut["open"], d["name"]))
+        j = hit + len(want)
+        start = toks[j][1]          # first token of the closure expression (`move` or `|`)
+        while body[toks[j][1]:toks[j][2]] != "{":
+            j += 1
+        depth = 0
+        end = None
+        for k in range(j, len(toks)):
+            t = body[toks[k][1]:toks[k][2]]
+            if toks[k][0] == "punct" and t == "{":
+                depth += 1
+            elif toks[k][0] == "punct" and t == "}":
+                depth -= 1
+                if depth == 0:
+                    end = toks[k][2]
+                    break
+        if end is None:
+            raise ExtractError("cut: unbalanced closure in %s" % d["name"])
+        body = body[:start] + cut["repl"] + body[end:]
+        log.append({"rule": "T9/cut", "fn": d["name"], "open": cut["open"]})
     # T6 substitutions
     for sub in d["subs"]:
         pat = re.compile(sub["regex"], re.S)
@@ -594,6 +625,12 @@ class Unit:
                         d["attr"] = buf[:]
                     elif kind == "top":
                         d["top"] = buf[:]
+                    elif kind == "cut":
+                        # //@cut <text that precedes the closure>   + one line: the replacement expression (T9, at the original site)
+                        body = [b for b in buf if b.strip() != ""]
+                        if len(body) != 1:
+                            raise ExtractError("//@cut needs exactly 1 line")
+                        d.setdefault("cuts", []).append({"open": sec[1].strip(), "repl": body[0].strip()})
                     elif kind == "spec":
                         d["spec"] = buf[:]
                     elif kind == "sig":
